@@ -5,6 +5,7 @@ package c01
 
 import (
 	"fmt"
+	"strings"
 	"testing"
 
 	"github.com/6tail/lunar-go/calendar"
@@ -71,6 +72,12 @@ var civilLunarCivil = ev.Register(&ev.P[dayCase]{
 	Check: func(c dayCase) error {
 		t := c.T
 		s := gen.Solar(t)
+		// the conversion reads the civil year's table; one case in four, that table's own list accessors have just been
+		// used (they hand out views of the cached table and must leave it as it was)
+		if k := (ref.JDN(t.Y, t.M, t.D) + t.H) % 4; k == 0 {
+			ly := calendar.NewLunarYear(t.Y)
+			_, _, _, _, _ = ly.GetMonthsInYear(), ly.GetLeapMonth(), ly.GetDayCount(), ly.GetMonth(1), ly.GetMonths()
+		}
 		l := s.GetLunar()
 		a := ymdOf(l)
 		if a.M == 0 || a.D <= 0 {
@@ -228,6 +235,16 @@ var pathIndependence = ev.Register(&ev.P[pathCase]{
 		if ymdOf(bk) != ymdOf(l) || gen.FromSolar(bk.GetSolar()) != t {
 			return fmt.Errorf("%v Lunar.Next(%d).Next(%d) = %v", t, c.N, -c.N, ymdOf(bk))
 		}
+		// the lunar date still is what it was after its civil side was used for stepping (hours within the day, zero
+		// days) and after its own zero step: lunar -> civil -> lunar stays the identity on the object already held
+		cs := l.GetSolar()
+		_, _, _, _ = cs.NextHour(1), cs.NextHour(-1), cs.NextDay(0), l.Next(0).GetSolar().NextHour(2)
+		if g := gen.FromSolar(l.GetSolar()); g != t || ymdOf(l.GetSolar().GetLunar()) != ymdOf(l) || l.GetSolar().GetLunar().GetTimeInGanZhi() != l.GetTimeInGanZhi() {
+			return fmt.Errorf("%v: after stepping calls on its civil date the held lunar date reports civil %v / lunar %v (hour pillar %s vs %s)", t, g, ymdOf(l.GetSolar().GetLunar()), l.GetSolar().GetLunar().GetTimeInGanZhi(), l.GetTimeInGanZhi())
+		}
+		if df := dig.Diff(dig.Of(l, 0), d1Flat(d1), 4); df != "" {
+			return fmt.Errorf("%v: the held lunar date answers differently after stepping calls: %s", t, df)
+		}
 		return nil
 	},
 	Class: func(c pathCase) ([]string, bool) {
@@ -320,6 +337,17 @@ func genLunar(t *rapid.T) lunarCase {
 		m, d = ms[0], 1
 	}
 	return lunarCase{y, m.GetMonth(), d, h, mi, s}
+}
+
+// d1Flat keeps the depth-0 entries of a depth-1 digest of a Lunar (paths "Lunar.X()").
+func d1Flat(d map[string]string) map[string]string {
+	out := map[string]string{}
+	for k, v := range d {
+		if strings.Count(k, ".") == 1 {
+			out[k] = v
+		}
+	}
+	return out
 }
 
 func TestC01(t *testing.T) {
